@@ -1,0 +1,22 @@
+//go:build verif
+
+// Add-only hook for the /verif harness (property C20). Not compiled without the tag.
+package keystore
+
+import "gitlab.com/aquachain/aquachain/common"
+
+// VerifFireExpiry performs, now, what the expire goroutine of a timed unlock does
+// when its timer fires: if addr is unlocked with a timeout (abort channel present)
+// the key is zeroed and the entry dropped. It reports whether it dropped one.
+// It lets the harness drive expiry by a logical clock instead of the wall clock.
+func (ks *KeyStore) VerifFireExpiry(addr common.Address) bool {
+	ks.mu.Lock()
+	defer ks.mu.Unlock()
+	u, found := ks.unlocked[addr]
+	if !found || u.abort == nil {
+		return false
+	}
+	zeroKey(u.PrivateKey)
+	delete(ks.unlocked, addr)
+	return true
+}
